@@ -37,7 +37,9 @@ def kernel_case(draw):
     targets = [draw(st.one_of(st.floats(-3000, 3000), st.sampled_from([-3000.0, 3000.0, -800.0, 800.0, 0.0]))) for _ in range(K)]
     return {"nw": nw, "W": W, "K": K, "T": T, "kappa_exp": kappa_exp, "logdet_targets": targets,
             "seed": draw(st.integers(0, 2 ** 32 - 1)), "spread": draw(st.sampled_from([0.1, 1.0, 10.0])),
-            "offset_pow2": draw(st.sampled_from([None, None, None, 8, 16, 24, 32, 40]))}
+            "offset_pow2": draw(st.sampled_from([None, None, None, 8, 16, 24, 32, 40])),
+            "points_dtype": draw(st.sampled_from(["float64", "float64", "float64", "float32"])),
+            "rescore_after_update": draw(st.booleans())}
 
 
 def build_kernel_inputs(case):
@@ -59,6 +61,8 @@ def build_kernel_inputs(case):
         off = 2.0 ** case["offset_pow2"]
         means = [off + rng.integers(-1024, 1025, size=nw) / 256.0 for _ in range(K)]
         pts = off + rng.integers(-1024, 1025, size=(T, nw)) / 256.0
+    if case.get("points_dtype") == "float32":
+        pts = pts.astype(np.float32)              # the reference is computed from exactly these stored values
     return thetas, means, pts
 
 
@@ -78,7 +82,23 @@ def execute_kernel(case, t):
         table = likelihood.all_points_all_clusters_log_likelihood(ms, pts)
     except Exception as e:
         raise Violation(f"likelihood table raised {type(e).__name__}: {e} (NW={nw}, K={K})")
-    ref, kappas, logdets = gaussian_ref.log_density_table(pts, means, thetas)
+    ref, kappas, logdets = gaussian_ref.log_density_table(np.asarray(pts, dtype=np.float64), means, thetas)
+    if case.get("rescore_after_update"):
+        # the same model object is fitted again (new precision matrices and means put into the same clusters, as an
+        # outer loop that keeps its ModelState does) and scored again: nothing of the first scoring may linger
+        case2 = dict(case, seed=(case["seed"] + 1) % (2 ** 32), logdet_targets=[-x * 0.5 + 3.0 for x in case["logdet_targets"]],
+                     rescore_after_update=False)
+        thetas2, means2, _ = build_kernel_inputs(case2)
+        for k in range(K):
+            ms.clusters[k].train_inverse = thetas2[k].copy()
+            ms.clusters[k].stacked_data_mean = means2[k].copy()
+        try:
+            table = likelihood.all_points_all_clusters_log_likelihood(ms, pts)
+        except Exception as e:
+            raise Violation(f"likelihood table raised {type(e).__name__}: {e} on the second scoring of the same model (NW={nw})")
+        thetas, means = thetas2, means2
+        ref, kappas, logdets = gaussian_ref.log_density_table(np.asarray(pts, dtype=np.float64), means, thetas)
+        t.cls("same_model_rescored_after_update")
     table = np.asarray(table)
     if table.shape != ref.shape:
         raise Violation(f"likelihood table has shape {table.shape}, expected {ref.shape}")
@@ -97,6 +117,7 @@ def execute_kernel(case, t):
         c = ms.clusters[k]
         for i in range(pts.shape[0]):
             v = float(likelihood.point_log_likelihood(pts[i], c, W, nw // W))
+            
             if not math.isfinite(v) or abs(v - ref[i, k]) > tol[i]:
                 raise Violation(f"point_log_likelihood(point {i}, cluster {k}) = {v!r}, reference {ref[i, k]!r} (NW={nw})")
         t.max("max_rel_error", float(np.max(err / (1 + np.abs(ref[:, k])))))
@@ -108,6 +129,8 @@ def execute_kernel(case, t):
         t.cls("kappa>1e4")
     if case.get("offset_pow2") is not None:
         t.cls("large_common_offset")
+    if case.get("points_dtype") == "float32":
+        t.cls("points_stored_as_float32")
     if big or nw >= 50:
         t.mark_nontrivial({"NW": nw, "logdets": [round(x, 1) for x in logdets], "kappa": [float(f"{k:.3g}") for k in kappas]})
 
